@@ -11,6 +11,9 @@
 #include <bxdecay0/gauss.h>
 #include <bxdecay0/genbbsub.h>
 #include <bxdecay0/i_random.h>
+#include <bxdecay0/mdl_event_op.h>
+#include <bxdecay0/resource.h>
+#include <memory>
 #include "stream.hpp"
 #include <cmath>
 #include <cstdio>
@@ -48,11 +51,17 @@ struct Rnd : bxdecay0::i_random {
   double operator()() override { return vx::stream_value(phase, i++); }
 };
 
-static void generator_body(int tid, bool dbd, const char * name, int level, int mode, bool ga)
+static void generator_body(int tid, bool dbd, const char * name, int level, int mode, bool ga, double mdl_aperture_deg = -1.0)
 {
   using bxdecay0::decay0_generator;
   try {
     decay0_generator g;
+    if (mdl_aperture_deg >= 0) {
+      // a post-generation operation of its own (each instance with another aperture)
+      auto op = std::make_shared<bxdecay0::momentum_direction_lock_event_op>();
+      op->set(bxdecay0::INVALID_PARTICLE, 0, 0.0, 0.0, 1.0, mdl_aperture_deg * M_PI / 180.0, false);
+      g.add_operation(op);
+    }
     g.set_decay_category(dbd ? decay0_generator::DECAY_CATEGORY_DBD : decay0_generator::DECAY_CATEGORY_BACKGROUND);
     g.set_decay_isotope(name);
     if (dbd) {
@@ -104,6 +113,39 @@ int main(int argc, char ** argv)
     th.emplace_back([] { generator_body(1, true, "Se82", 0, 22, true); });
     th.emplace_back([] { generator_body(2, true, "Cd116", 0, 23, true); });
     for (auto & t : th) t.join();
+  } else if (group == 4) {
+    // resource look-ups from several threads at once: the public functions themselves, and gA initialisations that fall
+    // back on the resource directory because no dataset directory is given (they may legitimately fail: no data there)
+    const char * ga0 = getenv("BXDECAY0_DBD_GA_DATA_DIR");
+    std::string ga_saved = ga0 ? ga0 : "";
+    unsetenv("BXDECAY0_DBD_GA_DATA_DIR");
+    std::vector<std::thread> th;
+    for (int t = 0; t < 3; t++)
+      th.emplace_back([] {
+        for (int k = 0; k < 50; k++) {
+          try {
+            std::string d = bxdecay0::get_resource_dir(true);
+            std::string f = bxdecay0::get_resource("description/dbd_modes.lis", true);
+            if (d.empty() || f.empty()) fprintf(stderr, "UNEXPECTED-EXCEPTION resource: empty path\n");
+          } catch (std::exception & e) {
+            fprintf(stderr, "UNEXPECTED-EXCEPTION resource: %s\n", e.what());
+          }
+        }
+      });
+    th.emplace_back([] {
+      try {
+        bxdecay0::decay0_generator g;
+        g.set_decay_category(bxdecay0::decay0_generator::DECAY_CATEGORY_DBD);
+        g.set_decay_isotope("Mo100");
+        g.set_decay_dbd_level(0);
+        g.set_decay_dbd_mode(bxdecay0::DBDMODE_21);
+        Rnd r;
+        g.initialize(r);
+      } catch (std::exception &) {
+      }
+    });
+    for (auto & t : th) t.join();
+    if (!ga_saved.empty()) setenv("BXDECAY0_DBD_GA_DATA_DIR", ga_saved.c_str(), 1);
   } else
   {
     std::vector<std::thread> th;
@@ -134,6 +176,9 @@ int main(int argc, char ** argv)
     th.emplace_back([] { generator_body(9, false, "K42", 0, 0, false); });
     th.emplace_back([] { generator_body(10, false, "Cs137+Ba137m", 0, 0, false); });
     th.emplace_back([] { generator_body(11, false, "Ar39", 0, 0, false); });
+    th.emplace_back([] { generator_body(12, false, "Co60", 0, 0, false, 5.0); });   // each with its own direction lock
+    th.emplace_back([] { generator_body(13, false, "Co60", 0, 0, false, 60.0); });
+    th.emplace_back([] { generator_body(14, true, "Mo100", 0, 1, false, 20.0); });
     for (auto & t : th) t.join();
   }
   printf("done %d repetitions\n", reps);
